@@ -614,7 +614,14 @@ func c13NonEmpty(c *Ctx, r *Report, vreach map[*ssa.Function]bool) {
 			for _, in := range b.Instrs {
 				call, isC := in.(*ssa.Call)
 				if !isC || !isBuiltinCall(call, "append") || !isErrSlice(call.Type()) {
-					continue
+					// a fresh list holding the error (return []error{..}) reports it as well
+					sl, isS := in.(*ssa.Slice)
+					if !isS || !isErrSlice(sl.Type()) {
+						continue
+					}
+					if el, lit := sliceLitElems(sl); !lit || len(el) == 0 {
+						continue
+					}
 				}
 				if hasGuard(b, func(g guard) bool {
 					v, op, k, ok := intCmp(g.cond)
